@@ -131,7 +131,7 @@ theorem row_fields (names : Names) (read : Read) (info : Info) (k : Nat) (p : Ma
     unfold infoRowFields
     rw [rowFieldsOf_getElem?, hl]
     simp only [Option.map_some, curAt]
-    rw [← List.map_take, hfst]
+    rw [List.map_take, hfst]
     rfl
 
 theorem rcField_def (isRc : Option Bool) :
@@ -222,7 +222,10 @@ theorem adapters_first_chain (names : Names) (side : Nat) (c : Cutter) (read r :
     have hstart : infoStart { originalAfter true ({ original := read } : Info) ra with
         mts := (originalAfter true ({ original := read } : Info) ra).mts ++ ms } = searchRead c read := by
       subst hra
-      simp only [infoStart, originalAfter]
+      have e : infoStart { originalAfter true ({ original := read } : Info) (searchRead c read) with
+          mts := (originalAfter true ({ original := read } : Info) (searchRead c read)).mts ++ ms } =
+          { read with seq := (searchRead c read).seq } := rfl
+      rw [e]
       unfold searchRead
       split <;> rfl
     rw [hstart]
